@@ -82,7 +82,7 @@ def resultMon (s : St) (me : Option String) (pi : Int) (p : Bytes) (impl : Strin
   let others := s.ws.filter fun w => some w.name ≠ me && holdingPos w.pos && w.pi == pi
   (if (impl == "ok" || impl == "g3" || impl == "g4") && !isPiece s pi p && !collides s pi p then
     [s!"side=impl key=accepted-corrupt payload for index {pi} accepted ({impl}) although it is not the blob's piece"] else []) ++
-  (if impl == "panic" && 0 ≤ pi then [s!"side=impl key=panic-valid-index WritePiece panicked for index {pi}"] else []) ++
+  (if impl == "panic" then [s!"side=impl key=panic WritePiece panicked for index {pi}"] else []) ++
   (if impl == "errConflict" && others.isEmpty then
     [s!"side=impl key=conflict-without-writer index {pi} reported as being written while no writer holds it"] else []) ++
   (if impl == "errComplete" && !(0 ≤ pi && s.verified.contains pi.toNat) then
@@ -201,7 +201,7 @@ def stepCore (s : St) (kind : String) (args impl : List String) : Option (St × 
         (if !(0 ≤ pi && s.verified.contains pi.toNat) then [s!"side=impl key=read-unverified piece {pi} served although it was never verified"] else []) ++
         (if 0 ≤ pi && pi.toNat < npieces s && bytes? bT ≠ some (pieceOf s.pl s.blob pi.toNat) then
           [s!"side=impl key=read-wrong piece {pi} served with bytes that differ from the blob"] else [])
-      | ["panic"] => if 0 ≤ pi then [s!"side=impl key=panic-valid-index GetPieceReader panicked for index {pi}"] else []
+      | ["panic"] => [s!"side=impl key=panic GetPieceReader panicked for index {pi}"]
       | _ => []
     pure (s, { obs := obs, branch := s!"read.{obs.headD ""}", propfails := pf })
   | ["has", piT] => do
@@ -211,6 +211,7 @@ def stepCore (s : St) (kind : String) (args impl : List String) : Option (St × 
       | none => ["panic"]
     let pf := match impl with
       | ["1"] => if !(0 ≤ pi && s.verified.contains pi.toNat) then [s!"side=impl key=bitfield-unverified HasPiece({pi}) although never verified"] else []
+      | ["panic"] => [s!"side=impl key=panic HasPiece panicked for index {pi}"]
       | _ => []
     pure (s, { obs := obs, branch := s!"has.{obs.headD ""}", propfails := pf })
   | ["reopen"] =>
@@ -271,7 +272,7 @@ def cstep (s : CSt) (kind : String) (args impl : List String) : Option (CSt × S
       let okBefore := s.hist.filter fun o => o.id ≠ w.id && o.pi == w.pi && o.res == "ok" && o.inv < w.resp
       (if w.res == "ok" && !isPiece b w.pi w.payload && !collides b w.pi w.payload then
         [s!"side=impl key=accepted-corrupt payload of writer {w.id} for index {w.pi} accepted although it is not the blob's piece"] else []) ++
-      (if w.res == "panic" && 0 ≤ w.pi then [s!"side=impl key=panic-valid-index writer {w.id} panicked for index {w.pi}"] else []) ++
+      (if w.res == "panic" then [s!"side=impl key=panic writer {w.id} panicked for index {w.pi}"] else []) ++
       (if w.res == "errConflict" && overl.isEmpty then
         [s!"side=impl key=conflict-without-writer writer {w.id}: index {w.pi} reported as being written, no overlapping writer got past tryMarkDirty"] else []) ++
       (if w.res == "errComplete" && okBefore.isEmpty then
